@@ -67,19 +67,22 @@ static struct chunks const *fcgi_headers_plus(struct fcgi_out *self, struct chun
 /* record geometry: a full record is 8 + 65535 + 1 bytes; T bytes of content make (T-1)/65535 full records and one last record of 1..65535 bytes */
 #define FREC 65544u
 #define FCON 65535u
-#define NFULL(T) ((uint32_t)((T) - 1) / FCON)
-#define RLEN(T, r) ((uint32_t)(r) < NFULL(T) ? FCON : (uint32_t)(T) - FCON * (uint32_t)(r))
+/* division-free: the harness fixes the decomposition T = FCON*g_nfull + g_last (1 <= g_last <= FCON for T > 0) and g_pos = FREC*g_gr + g_go (g_go < FREC); both are unique */
+uint32_t g_nfull, g_last, g_gr, g_go;
+#define DECOMP(T) ((T) == 0 ? (g_nfull == 0 && g_last == 0) : (g_nfull <= 15 && g_last >= 1 && g_last <= FCON && (T) == (size_t)FCON * g_nfull + g_last))
+#define NFULL(T) g_nfull
+#define RLEN(T, r) ((uint32_t)(r) < g_nfull ? FCON : g_last)
 #define PADL(L) ((8u - (uint32_t)(L) % 8u) % 8u)
 #define BODYLEN(T) ((T) == 0 ? 0u : NFULL(T) * FREC + 8u + RLEN(T, NFULL(T)) + PADL(RLEN(T, NFULL(T))))
 /* which list was formatted and its length, seen from the postcondition (the flag has been set by then: g_hdr_used tells) */
 #define IN_OF(self, input) (g_hdr_used ? (self)->hdr_plus_input : (input))
 #define T_OF(self, input) (IN_OF(self, input)->pre[IN_OF(self, input)->n])
 /* where the byte at output position g_pos must come from.  For a content position the harness chose (g_c,g_o) as the chunk/offset of that content byte */
-#define G_R ((uint32_t)g_pos / FREC)
-#define G_O ((uint32_t)g_pos % FREC)
+#define G_R g_gr
+#define G_O g_go
 #define EXPECT_PTR(self, in, T) (G_O < 8 ? ((G_R < NFULL(T) ? (char const *)&(self)->full_header_ : (char const *)&(self)->header_) + G_O) : \
      G_O < 8 + RLEN(T, G_R) ? (in)->e[g_c].ptr + g_o : pad + (G_O - 8 - RLEN(T, G_R)))
-#define OBS_PRE(in) (g_pos <= 2 * BUF_CAP && ((g_pos < BODYLEN((in)->pre[(in)->n]) && G_O >= 8 && G_O < 8 + RLEN((in)->pre[(in)->n], G_R)) ==> \
+#define OBS_PRE(in) (g_pos <= 2 * BUF_CAP && DECOMP((in)->pre[(in)->n]) && g_go < FREC && g_gr <= 32 && g_pos == (size_t)FREC * g_gr + g_go && ((g_pos < BODYLEN((in)->pre[(in)->n]) && G_O >= 8 && G_O < 8 + RLEN((in)->pre[(in)->n], G_R)) ==> \
      (g_c < (in)->n && (in)->pre[g_c] <= (in)->pre[g_c + 1] && (in)->pre[g_c + 1] - (in)->pre[g_c] == (in)->e[g_c].size && (in)->pre[g_c + 1] <= (in)->pre[(in)->n] && \
       g_o < (in)->e[g_c].size && (in)->pre[g_c] + g_o == (size_t)FCON * G_R + (G_O - 8))))
 #define OBS_OK(self, in, T) (g_pos_seen == (g_pos < out_len) && (g_pos_seen ==> g_pos_ptr == EXPECT_PTR(self, in, T)))
@@ -88,22 +91,38 @@ static struct chunks const *fcgi_headers_plus(struct fcgi_out *self, struct chun
      (self)->full_header_.content_length == SWAP16(FCON) && (self)->full_header_.padding_length == 1 && (self)->full_header_.reserved == 0)
 #define LASTHDR_OK(self, T) ((self)->header_.version == 1 && (self)->header_.type == fcgi_stdout && (self)->header_.request_id == SWAP16((self)->request_id_) && \
      (self)->header_.content_length == SWAP16(RLEN(T, NFULL(T))) && (self)->header_.padding_length == PADL(RLEN(T, NFULL(T))) && (self)->header_.reserved == 0)
+/* ---- HTTP chunked wrapper / SCGI prefix: the returned const_buffer as a short sequence of pieces */
+enum { PC_none, PC_in, PC_hdr, PC_lit };
+struct http_out { size_t hdr_hex_of; bool hdr_set; bool headers_written_; };
+int g_pc_n; int g_pc_kind[4]; char const *g_lit_p; size_t g_lit_n;
+static void pc_add(int kind) { __CPROVER_assert(g_pc_n < 4, "at most four pieces"); g_pc_kind[g_pc_n] = kind; g_pc_n++; }
+static void pc_lit(char const *p, size_t n) { __CPROVER_assert(__CPROVER_r_ok(p, n), "buffer(literal,n): n bytes of the literal are readable"); g_lit_p = p; g_lit_n = n; pc_add(PC_lit); }
+/* chunked_header_ = hex(n) + CRLF via std::ostringstream << std::hex (library formatting assumed: lower-case hexadecimal, no prefix) */
+static void hdr_set_hex_crlf(struct http_out *self, size_t n) { self->hdr_hex_of = n; self->hdr_set = 1; }
 /* ---- concrete chunk lists (const_buffer::get()): entries + ghost prefix-sum table; buffer_impl::add never stores an empty chunk */
 struct entry { char const *ptr; size_t size; };
 struct chunks { struct entry *e; size_t n; size_t *pre; };
 #define CHUNKS_OK(c) ((c)->n <= 1000 && __CPROVER_r_ok((c)->e, (c)->n * sizeof(struct entry)) && __CPROVER_r_ok((c)->pre, ((c)->n + 1) * sizeof(size_t)) && (c)->pre[0] == 0 && (c)->pre[(c)->n] <= BUF_CAP)
 /* the facts about entry i a walk may use (not a restriction: definition of the prefix table, chunks are non-empty readable ranges) */
 static struct entry const *chunk_at(struct chunks const *c, size_t i);
-/* `chunks->size` / `chunks->ptr` through the walking entry pointer */
+/* the walking entry pointer `chunks` is shadowed by the ghost index g_ci (chunks == list + g_ci, asserted at every use) */
+size_t g_ci;
 static struct entry const *chunk_cur(struct chunks const *c, struct entry const *p)
 {
-  __CPROVER_assert(SAME(p, c->e) && OFF(p) >= OFF(c->e) && (OFF(p) - OFF(c->e)) % sizeof(struct entry) == 0, "entry pointer walks the list returned by get()");
-  return chunk_at(c, (OFF(p) - OFF(c->e)) / sizeof(struct entry));
+  __CPROVER_assert(p == c->e + g_ci, "entry pointer walks the list returned by get()");
+  return chunk_at(c, g_ci);
+}
+/* `chunks++`: the next entry of the list; like every entry it is non-empty (buffer_impl::add) */
+static struct entry const *chunk_next(struct chunks const *c, struct entry const *p)
+{
+  g_ci++;
+  if(g_ci < c->n) __CPROVER_assume(c->e[g_ci].size >= 1);
+  return p + 1;
 }
 static struct entry const *chunk_at(struct chunks const *c, size_t i)
 {
   __CPROVER_assert(i < c->n, "chunk index inside the list returned by get()");
-  __CPROVER_assume(c->e[i].size >= 1 && c->pre[i] <= c->pre[i + 1] && c->pre[i + 1] - c->pre[i] == c->e[i].size && c->pre[i + 1] <= c->pre[c->n] && __CPROVER_r_ok(c->e[i].ptr, c->e[i].size) &&
+  __CPROVER_assume(c->e[i].size >= 1 && c->pre[i] <= c->pre[i + 1] && c->pre[i + 1] - c->pre[i] == c->e[i].size && c->pre[i + 1] <= c->pre[c->n] &&
                     /* monotonicity of the prefix sums, instantiated for the observed chunk g_c */
                     (g_c < c->n ==> ((i < g_c ==> c->pre[i + 1] <= c->pre[g_c]) && (i > g_c ==> c->pre[i] >= c->pre[g_c + 1]))));
   return &c->e[i];
@@ -224,43 +243,70 @@ __CPROVER_ensures(self->eof_.record_.app_status == 0 && self->eof_.record_.proto
          rewrites=[(r'booster::aio::const_buffer in;', 'struct chunks const *in;', 1), (r'in=booster::aio::buffer\(response_headers_\) \+ input;', 'in = fcgi_headers_plus(self, input);', 1),
                    (r'booster::aio::const_buffer packet;', 'out_reset();', 1), (r'booster::aio::const_buffer::entry const \*chunks = in\.get\(\)\.first;', 'struct entry const *chunks = in->e;', 1),
                    (r'in\.bytes_count\(\)', 'in->pre[in->n]', 1), (r'packet \+= io::buffer\(', 'out_add(', 5), (r'(\w+)\.to_net\(\);', r'fcgi_header_to_net(&\1);', 2),
-                   (r'chunks->(size|ptr)', r'chunk_cur(in, chunks)->\1', 3), (r'return packet;', 'return;', 1)],
+                   (r'chunks->(size|ptr)', r'chunk_cur(in, chunks)->\1', 3), (r'chunks\+\+;', 'chunks = chunk_next(in, chunks);', 1), (r'return packet;', 'return;', 1)],
          loop_ghost={1: 'g_rec = g_rec + 1;'},
-         body_ghost='g_rec = 0; g_hdr_used = 0;',
+         body_ghost='g_rec = 0; g_hdr_used = 0; g_ci = 0;',
          loops={1: r'''
-__CPROVER_assigns(reminder, chunks, chunk_consumed, out_len, g_pos_seen, g_pos_ptr, g_rec, self->header_, self->full_header_)
+__CPROVER_assigns(reminder, chunks, chunk_consumed, out_len, g_pos_seen, g_pos_ptr, g_rec, g_ci, self->header_, self->full_header_)
 /* g_rec records have been emitted; while input remains they were all full ones */
 __CPROVER_loop_invariant(in_size == in->pre[in->n] && in_size <= BUF_CAP && reminder <= in_size && g_rec <= 16 &&
       (reminder > 0 ==> (in_size - reminder == (size_t)FCON * g_rec && out_len == (size_t)FREC * g_rec && g_rec <= NFULL(in_size))) &&
       (reminder == 0 ==> (out_len == BODYLEN(in_size) && (in_size > 0 ==> (g_rec == NFULL(in_size) + 1 && LASTHDR_OK(self, in_size))))) &&
       /* the chunk walk stands at stream position in_size - reminder */
-      SAME(chunks, in->e) && OFF(chunks) >= OFF(in->e) && (OFF(chunks) - OFF(in->e)) % sizeof(struct entry) == 0 && (OFF(chunks) - OFF(in->e)) / sizeof(struct entry) <= in->n &&
-      in->pre[(OFF(chunks) - OFF(in->e)) / sizeof(struct entry)] + chunk_consumed == in_size - reminder &&
-      ((OFF(chunks) - OFF(in->e)) / sizeof(struct entry) == in->n ==> chunk_consumed == 0) &&
+      g_ci <= in->n && chunks == in->e + g_ci &&
+      chunk_consumed <= in_size && in->pre[g_ci] <= in_size && in->pre[g_ci] + chunk_consumed == in_size - reminder &&
+      (g_ci == in->n ==> chunk_consumed == 0) && (g_ci < in->n ==> chunk_consumed < in->e[g_ci].size) &&
       /* a full header, once prepared, stays */
-      (g_rec >= 1 && in_size > FCON ==> FULLHDR_OK(self)) &&
+      self->full_header_.reserved == 0 && (g_rec >= 1 && in_size > FCON ==> FULLHDR_OK(self)) &&
       OBS_OK(self, in, in_size))
 __CPROVER_decreases(reminder)''',
                 2: r'''
-__CPROVER_assigns(chunk, chunks, chunk_consumed, out_len, g_pos_seen, g_pos_ptr)
+__CPROVER_assigns(chunk, chunks, chunk_consumed, out_len, g_pos_seen, g_pos_ptr, g_ci)
 /* inside record g_rec-1: rec_len - chunk content bytes of it are out */
 __CPROVER_loop_invariant(chunk <= RLEN(in_size, g_rec - 1) && g_rec >= 1 && g_rec <= NFULL(in_size) + 1 && in_size == in->pre[in->n] && in_size <= BUF_CAP && in_size >= 1 &&
       reminder == in_size - ((size_t)FCON * (g_rec - 1) + RLEN(in_size, g_rec - 1)) &&
       out_len == (size_t)FREC * (g_rec - 1) + 8 + (RLEN(in_size, g_rec - 1) - chunk) &&
-      SAME(chunks, in->e) && OFF(chunks) >= OFF(in->e) && (OFF(chunks) - OFF(in->e)) % sizeof(struct entry) == 0 && (OFF(chunks) - OFF(in->e)) / sizeof(struct entry) <= in->n &&
-      in->pre[(OFF(chunks) - OFF(in->e)) / sizeof(struct entry)] + chunk_consumed == (size_t)FCON * (g_rec - 1) + (RLEN(in_size, g_rec - 1) - chunk) &&
-      ((OFF(chunks) - OFF(in->e)) / sizeof(struct entry) == in->n ==> chunk_consumed == 0) &&
+      g_ci <= in->n && chunks == in->e + g_ci &&
+      chunk_consumed <= in_size && in->pre[g_ci] <= in_size && in->pre[g_ci] + chunk_consumed == (size_t)FCON * (g_rec - 1) + (RLEN(in_size, g_rec - 1) - chunk) &&
+      (g_ci == in->n ==> chunk_consumed == 0) && (g_ci < in->n ==> chunk_consumed < in->e[g_ci].size) &&
       OBS_OK(self, in, in_size))
 __CPROVER_decreases(chunk)'''},
          contract=r'''
-__CPROVER_requires(__CPROVER_rw_ok(self, sizeof(*self)) && CHUNKS_OK(input) && CHUNKS_OK(self->hdr_plus_input) && OBS_PRE(self->response_headers_written_ ? input : self->hdr_plus_input))
-__CPROVER_assigns(self->header_, self->full_header_, self->eof_, self->response_headers_written_, out_len, g_pos_seen, g_pos_ptr, g_hdr_used, g_rec)
+__CPROVER_requires(__CPROVER_rw_ok(self, sizeof(*self)) && CHUNKS_OK(input) && CHUNKS_OK(self->hdr_plus_input) && OBS_PRE(self->response_headers_written_ ? input : self->hdr_plus_input) &&
+                   /* full_header_ is value-initialised by the constructor and `reserved` is never written */ self->full_header_.reserved == 0)
+__CPROVER_assigns(self->header_, self->full_header_, self->eof_, self->response_headers_written_, out_len, g_pos_seen, g_pos_ptr, g_hdr_used, g_rec, g_ci)
 /* the response headers go in front of the first output only */
 __CPROVER_ensures(self->response_headers_written_ && g_hdr_used == !__CPROVER_old(self->response_headers_written_))
 /* total length: the records for T content bytes (+ the 24 end bytes when completed) */
 __CPROVER_ensures(out_len == BODYLEN(T_OF(self, input)) + (completed ? 24 : 0))
 /* the byte that will be sent at position g_pos comes from the right place (header of its record / content byte / padding / end records) */
 __CPROVER_ensures(g_pos < out_len ==> (g_pos_seen && g_pos_ptr == (g_pos < BODYLEN(T_OF(self, input)) ? EXPECT_PTR(self, IN_OF(self, input), T_OF(self, input)) : (char const *)&self->eof_ + (g_pos - BODYLEN(T_OF(self, input))))))
+'''),
+    # ---------------- HTTP chunked transfer encoding, SCGI "headers once"
+    dict(cname='http_make_chunked_wrapper', file=H, locate=lit('booster::aio::const_buffer make_chunked_wrapper(booster::aio::const_buffer const &in,bool completed)'),
+         sig='void http_make_chunked_wrapper(struct http_out *self, size_t in_n, bool completed)',
+         rewrites=[(r'in\.bytes_count\(\)', 'in_n', 2), (r'return in;', '{ pc_add(PC_in); return; }', 1), (r'return booster::aio::buffer\(("[^"]*"),(\w+)\);', r'{ pc_lit(\1, \2); return; }', 1),
+                   (r'std::ostringstream ss;\s*ss << std::hex << in_n << "\\r\\n";\s*chunked_header_ = std::move\(ss\.str\(\)\);', 'hdr_set_hex_crlf(self, in_n);', 1),
+                   (r'return booster::aio::buffer\(chunked_header_\) \+ in \+ booster::aio::buffer\(trailer,trailer_len\);', '{ pc_add(PC_hdr); pc_add(PC_in); pc_lit(trailer, trailer_len); return; }', 1)],
+         contract=r'''
+__CPROVER_requires(__CPROVER_rw_ok(self, sizeof(*self)) && g_pc_n == 0 && in_n <= BUF_CAP)
+__CPROVER_assigns(self->hdr_hex_of, self->hdr_set, g_pc_n, __CPROVER_object_whole(g_pc_kind), g_lit_p, g_lit_n)
+/* RFC 7230 4.1: nothing to send and not finished -> nothing; finished with nothing to send -> the last-chunk "0 CRLF CRLF" */
+__CPROVER_ensures((in_n == 0 && !completed) ==> (g_pc_n == 1 && g_pc_kind[0] == PC_in))
+__CPROVER_ensures((in_n == 0 && completed) ==> (g_pc_n == 1 && g_pc_kind[0] == PC_lit && g_lit_n == 5 && g_lit_p[0] == '0' && g_lit_p[1] == '\r' && g_lit_p[2] == '\n' && g_lit_p[3] == '\r' && g_lit_p[4] == '\n'))
+/* otherwise one chunk: hex(size) CRLF, the data, CRLF -- followed by the last-chunk when the response is complete; the size announced is the size of the data */
+__CPROVER_ensures(in_n > 0 ==> (g_pc_n == 3 && g_pc_kind[0] == PC_hdr && g_pc_kind[1] == PC_in && g_pc_kind[2] == PC_lit && self->hdr_set && self->hdr_hex_of == in_n &&
+                  g_lit_p[0] == '\r' && g_lit_p[1] == '\n' &&
+                  (completed ? (g_lit_n == 7 && g_lit_p[2] == '0' && g_lit_p[3] == '\r' && g_lit_p[4] == '\n' && g_lit_p[5] == '\r' && g_lit_p[6] == '\n') : g_lit_n == 2)))
+'''),
+    dict(cname='scgi_format_output', file=S, locate=r'virtual booster::aio::const_buffer format_output\(booster::aio::const_buffer const &in,bool\s*,booster::system::error_code &\s*\)',
+         sig='void scgi_format_output(struct http_out *self)', members=['headers_written_'],
+         rewrites=[(r'return in;', '{ pc_add(PC_in); return; }', 1), (r'return booster::aio::buffer\(headers_\) \+ in;', '{ pc_add(PC_hdr); pc_add(PC_in); return; }', 1)],
+         contract=r'''
+__CPROVER_requires(__CPROVER_rw_ok(self, sizeof(*self)) && g_pc_n == 0)
+__CPROVER_assigns(self->headers_written_, g_pc_n, __CPROVER_object_whole(g_pc_kind))
+/* the header block goes out exactly once, in front of the first output; the body bytes pass unchanged */
+__CPROVER_ensures(self->headers_written_ && (__CPROVER_old(self->headers_written_) ? (g_pc_n == 1 && g_pc_kind[0] == PC_in) : (g_pc_n == 2 && g_pc_kind[0] == PC_hdr && g_pc_kind[1] == PC_in)))
 '''),
 ]
 
@@ -272,21 +318,30 @@ ABS = r'''
     struct conn c; c.pend_src = 0; int e = 0; size_t nn, pick; int fe, ne, we, wb, ok; g_new_n = nn; g_ws_pick = pick; g_fmt_err = fe; g_nb_err = ne; g_ws_err = we; g_wb = wb != 0; g_wr_ok = ok != 0; g_ws_calls = 0;
 '''
 jobs = [
-    dict(name='conn_nonblocking_write', props=P, enforce='conn_nonblocking_write', harness=ABS + 'bool r = conn_nonblocking_write(&c, &e); VERIF_REACH;'),
-    dict(name='conn_write', props=P, enforce='conn_write', harness=ABS + 'bool r = conn_write(&c, &e); VERIF_REACH;'),
-    dict(name='conn_append_pending', props=P, enforce='conn_append_pending', timeout=600, harness=CH_SETUP + r'''
+    dict(name='conn_nonblocking_write', props=P, replay='c03:stream', replay_link=['-fno-access-control', '-L{BUILD}', '-lcppcms', '-L{BUILD}/booster', '-lbooster', '-lpthread'], replay_exhaustive='60 write patterns (sizes 0, 1..10, 65535, 65536..8, up to 200000, 131070..3; 1..8 writes) x {scgi, fastcgi} through nonblocking_write into a socketpair with a 4 KiB send buffer drained in random amounts; received stream decoded and compared', enforce='conn_nonblocking_write', harness=ABS + 'bool r = conn_nonblocking_write(&c, &e); VERIF_REACH;'),
+    dict(name='conn_write', props=P, replay='c03:stream', replay_link=['-fno-access-control', '-L{BUILD}', '-lcppcms', '-L{BUILD}/booster', '-lbooster', '-lpthread'], replay_exhaustive='60 write patterns (sizes 0, 1..10, 65535, 65536..8, up to 200000, 131070..3; 1..8 writes) x {scgi, fastcgi} through nonblocking_write into a socketpair with a 4 KiB send buffer drained in random amounts; received stream decoded and compared', enforce='conn_write', harness=ABS + 'bool r = conn_write(&c, &e); VERIF_REACH;'),
+    dict(name='conn_append_pending', props=P, replay='c03:stream', replay_link=['-fno-access-control', '-L{BUILD}', '-lcppcms', '-L{BUILD}/booster', '-lbooster', '-lpthread'], replay_exhaustive='60 write patterns (sizes 0, 1..10, 65535, 65536..8, up to 200000, 131070..3; 1..8 writes) x {scgi, fastcgi} through nonblocking_write into a socketpair with a 4 KiB send buffer drained in random amounts; received stream decoded and compared', enforce='conn_append_pending', timeout=600, harness=CH_SETUP + r'''
     struct pvec v; struct chunks l; SYM_CHUNKS(l); size_t gc, go, mp; g_c = gc; g_o = go; g_mpos = mp;
     /* the observed chunk is a fresh object (it cannot alias the ghosts or the vector header) */
     if(gc < l.n) { char *src = malloc(l.e[gc].size); __CPROVER_assume(src != NULL); l.e[gc].ptr = src; }
     conn_append_pending(&v, &l); VERIF_REACH;'''),
-    dict(name='fcgi_header_to_net', props=P, enforce='fcgi_header_to_net', harness='struct fcgi_header h; fcgi_header_to_net(&h); VERIF_REACH;'),
-    dict(name='fcgi_prepare_eof', props=P, enforce='fcgi_prepare_eof', replace=['fcgi_header_to_net', 'fcgi_end_request_body_to_net'], pre_unwind=3, harness='struct fcgi_out o; fcgi_prepare_eof(&o); VERIF_REACH;'),
-    dict(name='fcgi_format_output', props=P, enforce='fcgi_format_output', replace=['fcgi_header_to_net', 'fcgi_prepare_eof'], timeout=900, harness=CH_SETUP + r'''
+    dict(name='fcgi_header_to_net', props=P, replay='c03:stream', replay_link=['-fno-access-control', '-L{BUILD}', '-lcppcms', '-L{BUILD}/booster', '-lbooster', '-lpthread'], replay_exhaustive='60 write patterns (sizes 0, 1..10, 65535, 65536..8, up to 200000, 131070..3; 1..8 writes) x {scgi, fastcgi} through nonblocking_write into a socketpair with a 4 KiB send buffer drained in random amounts; received stream decoded and compared', enforce='fcgi_header_to_net', harness='struct fcgi_header h; fcgi_header_to_net(&h); VERIF_REACH;'),
+    dict(name='fcgi_prepare_eof', props=P, replay='c03:stream', replay_link=['-fno-access-control', '-L{BUILD}', '-lcppcms', '-L{BUILD}/booster', '-lbooster', '-lpthread'], replay_exhaustive='60 write patterns (sizes 0, 1..10, 65535, 65536..8, up to 200000, 131070..3; 1..8 writes) x {scgi, fastcgi} through nonblocking_write into a socketpair with a 4 KiB send buffer drained in random amounts; received stream decoded and compared', enforce='fcgi_prepare_eof', replace=['fcgi_header_to_net', 'fcgi_end_request_body_to_net'], pre_unwind=3, harness='struct fcgi_out o; fcgi_prepare_eof(&o); VERIF_REACH;'),
+    dict(name='fcgi_format_output', props=P, replay='c03:stream', replay_link=['-fno-access-control', '-L{BUILD}', '-lcppcms', '-L{BUILD}/booster', '-lbooster', '-lpthread'], replay_exhaustive='60 write patterns (sizes 0, 1..10, 65535, 65536..8, up to 200000, 131070..3; 1..8 writes) x {scgi, fastcgi} through nonblocking_write into a socketpair with a 4 KiB send buffer drained in random amounts; received stream decoded and compared', kind='plainloops', unwind=3, timeout=900, cbmc_flags=['--external-sat-solver', 'kissat'], per_property=r'^fcgi_format_output\.|^h_fcgi_format_output\.|^out_add\.|^chunk_', pp_chunk=40, pp_workers=14,
+         complete_note='both loops of format_output closed by loop contracts (goto-instrument --apply-loop-contracts, no dfcc: symex of the walking entry pointer does not finish under dfcc); '
+                       'the 2-iteration loop of prepare_eof is unwound (constant bound, unwinding assertion on); pre/postcondition of the function contract are assumed/asserted by the harness',
+         harness=CH_SETUP + r'''
     struct fcgi_out o; struct chunks in1, in2; SYM_CHUNKS(in1); SYM_CHUNKS(in2); o.hdr_plus_input = &in2; size_t gp, gc, go; g_pos = gp; g_c = gc; g_o = go; int ci; bool completed = ci != 0;
-    int hw; o.response_headers_written_ = hw != 0;
+    uint32_t nf, la, gr, gg; g_nfull = nf; g_last = la; g_gr = gr; g_go = gg;
+    int hw; o.response_headers_written_ = hw != 0; bool hw0 = o.response_headers_written_;
+    struct chunks const *in = hw0 ? &in1 : &in2; size_t T = in->pre[in->n];
+    __CPROVER_assume(OBS_PRE(in) && o.full_header_.reserved == 0);      /* = the requires clause of the contract */
     fcgi_format_output(&o, &in1, completed);
-    /* send time: what the peer reads at g_pos when it lies in a record header */
-    struct chunks const *in = g_hdr_used ? &in2 : &in1; size_t T = in->pre[in->n];
+    __CPROVER_assert(o.response_headers_written_ && g_hdr_used == !hw0, "the response headers go in front of the first output only");
+    __CPROVER_assert(out_len == BODYLEN(T) + (completed ? 24 : 0), "total length: the STDOUT records for T content bytes (+ the 24 end bytes when completed)");
+    __CPROVER_assert(g_pos < out_len ==> (g_pos_seen && g_pos_ptr == (g_pos < BODYLEN(T) ? EXPECT_PTR(&o, in, T) : (char const *)&o.eof_ + (g_pos - BODYLEN(T)))),
+                     "the byte sent at position g_pos comes from the right place: header of its record / the content byte at that stream offset / padding / end records");
+    /* send time: what the peer reads at g_pos when it lies in a record header or in padding */
     if(g_pos < BODYLEN(T) && G_O < 8) {
       unsigned char b = *(unsigned char const *)g_pos_ptr; uint32_t len = RLEN(T, G_R); uint16_t rid = (uint16_t)o.request_id_;
       unsigned char want = G_O == 0 ? 1 : G_O == 1 ? 6 : G_O == 2 ? (rid >> 8) : G_O == 3 ? (rid & 255) : G_O == 4 ? (len >> 8) : G_O == 5 ? (len & 255) : G_O == 6 ? PADL(len) : 0;
@@ -294,6 +349,8 @@ jobs = [
     }
     if(g_pos < BODYLEN(T) && G_O >= 8 + RLEN(T, G_R)) __CPROVER_assert(*g_pos_ptr == 0, "padding bytes are zero");
     VERIF_REACH;'''),
+    dict(name='http_make_chunked_wrapper', props=P, enforce='http_make_chunked_wrapper', harness='struct http_out o; size_t n; int ci; g_pc_n = 0; http_make_chunked_wrapper(&o, n, ci != 0); VERIF_REACH;'),
+    dict(name='scgi_format_output', props=P, replay='c03:stream', replay_link=['-fno-access-control', '-L{BUILD}', '-lcppcms', '-L{BUILD}/booster', '-lbooster', '-lpthread'], replay_exhaustive='60 write patterns (sizes 0, 1..10, 65535, 65536..8, up to 200000, 131070..3; 1..8 writes) x {scgi, fastcgi} through nonblocking_write into a socketpair with a 4 KiB send buffer drained in random amounts; received stream decoded and compared', enforce='scgi_format_output', harness='struct http_out o; int hw; o.headers_written_ = hw != 0; g_pc_n = 0; scgi_format_output(&o); VERIF_REACH;'),
 ]
 
 UNIT = dict(
